@@ -196,7 +196,8 @@ PLANS["C05"] = {
 
 PLANS["C06"] = {
     "jobs": lambda seed, tier: spread(seed, "C06", N(tier, 120, 2400), ["QF_BOOL", "QF_LIA", "QF_UF", "QF_LRA", "QF_IDL", "QF_UFLRA", "QF_ALIA", "QF_AX"], "cores") +
-                               spread(seed, "C06f", N(tier, 30, 600), ["QF_BOOL", "QF_LIA", "QF_UF", "QF_LRA"], "cores", full=True),
+                               spread(seed, "C06f", N(tier, 30, 600), ["QF_BOOL", "QF_LIA", "QF_UF", "QF_LRA"], "cores", full=True) +
+                               spread(seed, "C06m", N(tier, 40, 800), ["QF_BOOL", "QF_LIA", "QF_BOOL", "QF_IDL"], "cores", minimal=True, n_named=5),
     "rule": "unsat-biased scripts with named (top-level and nested) and unnamed assertions, names on popped levels and "
             "re-introduced names, get-unsat-core after every check; non-trivial = a core was printed",
 }
